@@ -46,6 +46,9 @@ def norm_case(ctx, rec):
     # through the public method of an explainer whose importance trackers hold exactly these values
     for dyn in (False, True):
         ex = IncrementalPFI(lambda x: {"output": 0.0}, lambda y, p: 0.0, names, dynamic_setting=dyn, smoothing_alpha=1.0)
+        if not hasattr(ex, "_importance_trackers"):
+            ctx.skip("norm.method (anchored attribute _importance_trackers not present)")
+            continue
         ex._importance_trackers.update({nm: np.float64(v) for nm, v in zip(names, vals)})
         with warnings.catch_warnings():
             warnings.simplefilter("ignore")
@@ -65,6 +68,9 @@ def bound_case(ctx, rec):
     names = ["a", "b"]
     ex = IncrementalPFI(lambda x: {"output": 0.0}, lambda y, p: 0.0, names, dynamic_setting=True, smoothing_alpha=float(alpha))
     # exponential smoothing started at zero: one update with var/alpha leaves the tracked variance at var
+    if not hasattr(ex, "_variance_trackers"):
+        ctx.skip("bound.formula (anchored attribute _variance_trackers not present)")
+        return
     ex._variance_trackers.update({nm: float(var / alpha) for nm in names})
     ex.seen_samples = t
     prev = None
@@ -117,7 +123,7 @@ def reachable_states(ctx, rng, quick):
             if any(not (float(v) >= 0 and math.isfinite(float(v))) for v in vs.values()):
                 ctx.violation("variance.non_negative", E._config_key(sc), "variances %s" % vs, {"scenario": sc.to_json()})
                 break
-            a = float(ex._smoothing_alpha)
+            a = float(getattr(ex, "_smoothing_alpha", sc.alpha))
             prev = None
             for delta in (1e-3, 1e-2, 0.1, 0.5, 1.0):
                 got = ex.get_confidence_bound(delta)
